@@ -252,10 +252,10 @@ def run_case(case, rec):
         for lev in (1, 3):
             ea = _evaluate(gen, cfg, rng, mol, model, dm, level=lev)[0]
             eb = _evaluate(gen, cfg, rng, mol2, model, dm2, level=lev)[0]
-            errs[lev] = abs(ea - eb) / max(abs(ea), 1e-3)
-        rec.check("haar_rotation_energy[level1]", errs[1], 2e-3, mechanism="rotation[haar]:energy-level1",
+            errs[lev] = abs(ea - eb) / max(abs(ea), 0.02 * mol.nelectron)
+        rec.check("haar_rotation_energy[level1]", errs[1], 1.5e-2, mechanism="rotation[haar]:energy-level1",
                   detail={"errs": errs})
-        rec.check("haar_rotation_energy[level3]", errs[3], 2e-4, mechanism="rotation[haar]:energy-level3",
+        rec.check("haar_rotation_energy[level3]", errs[3], 3e-3, mechanism="rotation[haar]:energy-level3",
                   detail={"errs": errs})
         # refinement: the level-3 error may not exceed the level-1 error unless both are already at the floor
         rec.check("haar_rotation_refinement", errs[3] / max(errs[1], 5e-5), 1.5,
